@@ -348,4 +348,28 @@ def run(ctx, ck):
               'truncation %s under guards %s' % (norm(c_), g) if ok else
               'truncation %s is not guarded by a decimal-point test (guards %s): integers of more than '
               '8 digits lose trailing digits' % (norm(c_), g))
+    # format_float is element-wise: one text per element of its argument (the symbolic walk relies on it)
+    ck.rule('R-EXH.elementwise', 'format_float returns one formatted text per element of its argument')
+    from ..symx import closed_returns, ELEMENTWISE
+    for name_ in sorted(ELEMENTWISE):
+        ffn = m.func('util.' + name_)
+        par = ffn.params[0]
+        shapes_ = set()
+        for conds_, ret_ in closed_returns(ctx, ffn, private_only=True):
+            ent = [t_ for k_, t_ in conds_ if k_ == 'loop' and t_ == par]
+            skp = [t_ for k_, t_ in conds_ if k_ == 'loop-skipped' and t_ == par]
+            v_ = ret_
+            if isinstance(v_, ast.Call) and isinstance(v_.func, ast.Name) and v_.func.id in ('tuple', 'list') and len(v_.args) == 1:
+                v_ = v_.args[0]
+            if isinstance(v_, (ast.Tuple, ast.List)) and not any(isinstance(x_, ast.Starred) for x_ in v_.elts):
+                # one walk through the loop body = one element; no iteration = no element
+                okr = len(v_.elts) == (1 if ent else 0) and (bool(ent) != bool(skp))
+            else:
+                from ..symx import _each_of
+                ea = _each_of(v_)
+                okr = ea is not None and norm(ea[1]) == par
+            shapes_.add(okr)
+        ck.ob('R-EXH.elementwise', ffn.qual, shapes_ == {True}, ffn.loc(),
+              'returns tuple(one text for each element of %s) on every path' % par if shapes_ == {True} else
+              'does not return exactly one text per element on every path')
     ck.undecided += ['format_float digit accuracy over all magnitudes (run-time precision/truncation)']
